@@ -251,14 +251,17 @@ def cut(interp, t, a, base='piece'):
                 if pc_.get_id() in st.ghost.get('__len1__', {}):
                     continue
                 alts.append(z3.And(offs[j] < a, a < offs[j + 1]))
+            other = z3.Not(z3.Or(*alts)) if alts else None      # (e.g. position 0: no piece is cut)
             alts = [c for c in alts if st._len_check(c) != z3.unsat]
             if alts:
                 depth = st.ghost.get('__align_depth__', 0)
                 if depth < 4:
                     st.ghost['__align_depth__'] = depth + 1
                     try:
-                        st.choose(len(alts), alts, assume_feasible=True)
-                        return cut(interp, t, a, base)
+                        all_alts = alts + ([other] if st._len_check(other) != z3.unsat else [])
+                        k = st.choose(len(all_alts), all_alts, assume_feasible=True)
+                        if k < len(alts):
+                            return cut(interp, t, a, base)
                     finally:
                         st.ghost['__align_depth__'] = depth
     p = _fresh(interp, base)
